@@ -1,3 +1,3 @@
-CONSTANTS MaxK = 3 Values = {2} Codes = {5} Scope = "all" Mutant = "none"
+CONSTANTS MaxK = 3 Values = {2} Codes = {5} Insts = {1} Scope = "all" Mutant = "none"
 SPECIFICATION Spec
 INVARIANT Emit
